@@ -30,7 +30,7 @@ pub fn mem_bound(len: usize) -> u64 {
     1024 * len as u64 + (64 << 10)
 }
 
-fn norm_msg(m: &str) -> String {
+pub fn norm_msg(m: &str) -> String {
     let mut out = String::new();
     let mut last_digit = false;
     for c in m.chars().take(34) {
